@@ -1,0 +1,6 @@
+//go:build !verif
+
+package sdf
+
+// verifEv is a no-op unless built with the "verif" tag.
+func verifEv(ev string, a, b int) {}
